@@ -228,3 +228,21 @@ SUBCHECKS = [
 ]
 SUBCHECKS[0].expected_classes = ["exact_multiple", "remainder", "below_max", "empty", "ragged_last_batch"]
 SUBCHECKS[1].expected_classes = ["top_up_needed", "exact", "zero_probability_outcome", "eliminate>=2", "top_up>=2"]
+
+
+def _campaigns(tier):
+    import os
+
+    seed = int(os.environ.get("VERIF_SEED_EFFECTIVE", "1"))
+    for corpus in ("empty", "seeded"):
+        yield {"target": "shots", "runs": 40000, "corpus": corpus, "seed": seed, "max_len": 192}
+
+
+def o_fuzz(spec):
+    from vlib.fuzz import run_campaign
+
+    return run_campaign(spec)
+
+
+SUBCHECKS.append(SubCheck("atheris_shots", o_fuzz, enumerate=_campaigns, shards=(1, 2), tiers=("thorough",), timeout=(600, 3000),
+                          rule="coverage-guided (Atheris/libFuzzer) campaigns, empty and seeded corpus: bytes -> (expand / combine / batch case, scale_and_discretize case) -> the conservation oracles"))
